@@ -197,7 +197,9 @@ func (configgen *ConfigGeneratorImpl) buildSidecarOutboundHTTPRouteConfig(
 		}
 		if listenerPort > 0 {
 			// only cache for tcp ports and not for uds
-			vHostCache[listenerPort] = virtualHosts
+			// The cache keeps its own slice: the one returned in the route configuration is sorted, extended and
+			// filtered in place by EnvoyFilter patches (a removed virtual host leaves a nil behind).
+			vHostCache[listenerPort] = slices.Clone(virtualHosts)
 		}
 
 		// FIXME: This will ignore virtual services with hostnames that do not match any service in the registry
